@@ -532,7 +532,7 @@ type cellMod struct {
 	whole   bool
 	fields  map[int]bool
 	typ     types.Type
-	backing bool // the cell is a backing array (content sort: Array idx elem)
+	backing bool   // the cell is a backing array (content sort: Array idx elem)
 	rawSort string // content sort given directly (map presence / value tables)
 }
 
